@@ -16,9 +16,17 @@ open C04
 /-- A block that is in the local blockstore is never requested from the exchange (single and batched),
 for every exchange behaviour: at each request event of the trace, none of the requested CIDs is stored. -/
 theorem c05_local_first (cfg : Cfg) (st : Store) (c : Cid) (ks : List Cid) (a1 : Option Blk)
-    (a2 : Option (List Blk)) (nOk : Bool) (nf p1 p2 : Option Nat) :
-    reqOk st (getBlock cfg st c a1 nOk p1).2.2 = true ∧ reqOk st (getBlocks cfg st ks a2 nf p2).2 = true :=
-  ⟨(getBlock_trace cfg st c a1 nOk p1).2, (getBlocks_trace cfg st ks a2 nf p2).2⟩
+    (a2 : Option (List Blk)) (nOk : Bool) (nf p1 p2 : Option Nat) (rdOk : Bool) (rd : Nat → Bool)
+    (hrd : ∀ j, rd j = true) :
+    reqOk st (getBlock cfg st c a1 nOk p1 rdOk).2.2 = true ∧ reqOk st (getBlocks cfg st ks a2 nf p2 rd).2 = true :=
+  ⟨(getBlock_trace cfg st c a1 nOk p1 rdOk).2, getBlocks_req cfg st ks a2 nf p2 rd hrd⟩
+
+/-- Why the guard `hrd`: getBlocks treats ANY error of blockstore.Get as a miss, so a stored block whose read
+failed is requested from the exchange (and, being stored, its fetched copy is not written again). -/
+theorem c05_read_error_refetch :
+    let a : Cid := ⟨0x55, 0x12, 32, 1⟩
+    getBlocks { al := .dflt } [(a.mh, 1)] [a] (some [(a, 1)]) none none (fun _ => false) =
+      ([(a.mh, 1)], [.reqMany [a], .put (a, 1), .notify [(a, 1)], .emit (a, 1)]) := by decide
 
 /-- … in particular a GetBlock of a stored CID makes no exchange request and returns the stored bytes. -/
 theorem c05_local_hit (cfg : Cfg) (st : Store) (c : Cid) (d : Data) (a : Option Blk) (nOk : Bool) (pf : Option Nat)
@@ -31,72 +39,53 @@ theorem c05_local_hit (cfg : Cfg) (st : Store) (c : Cid) (d : Data) (a : Option 
 `emit b` is preceded by SUCCESSFUL writes (`Ev.put`; a failed write is `Ev.putFail` and changes nothing) that
 leave `b`'s multihash stored — for every exchange behaviour and every pattern of blockstore write failures. -/
 theorem c05_cached_before_emit (cfg : Cfg) (st : Store) (c : Cid) (ks : List Cid) (a1 : Option Blk)
-    (a2 : Option (List Blk)) (nOk : Bool) (nf p1 p2 : Option Nat) :
-    (∀ pre b post, (getBlock cfg st c a1 nOk p1).2.2 = pre ++ .emit b :: post → (replay st pre).has b.1.mh = true) ∧
-    (∀ pre b post, (getBlocks cfg st ks a2 nf p2).2 = pre ++ .emit b :: post → (replay st pre).has b.1.mh = true) := by
+    (a2 : Option (List Blk)) (nOk : Bool) (nf p1 p2 : Option Nat) (rdOk : Bool) (rd : Nat → Bool) :
+    (∀ pre b post, (getBlock cfg st c a1 nOk p1 rdOk).2.2 = pre ++ .emit b :: post → (replay st pre).has b.1.mh = true) ∧
+    (∀ pre b post, (getBlocks cfg st ks a2 nf p2 rd).2 = pre ++ .emit b :: post → (replay st pre).has b.1.mh = true) := by
   constructor
   · intro pre b post h
-    exact cachedOk_split pre st b post (h ▸ (getBlock_trace cfg st c a1 nOk p1).1)
+    exact cachedOk_split pre st b post (h ▸ (getBlock_trace cfg st c a1 nOk p1 rdOk).1)
   · intro pre b post h
-    exact cachedOk_split pre st b post (h ▸ (getBlocks_trace cfg st ks a2 nf p2).1)
+    exact cachedOk_split pre st b post (h ▸ getBlocks_cached cfg st ks a2 nf p2 rd)
 
-/-- When the blockstore write of a fetched block fails, GetBlock returns the error and hands out nothing;
-GetBlocks stops: the block whose write failed, and everything after it, is not emitted. -/
-theorem c05_put_failure_no_emit (cfg : Cfg) (st : Store) (c : Cid) (a1 : Option Blk) (nOk : Bool)
+/-- When the blockstore write of a fetched block fails, GetBlock returns the error and hands out nothing that
+was not read from the local store; GetBlocks stops: the block whose write failed, and everything after it, is
+not emitted. -/
+theorem c05_put_failure_no_emit (cfg : Cfg) (st : Store) (c : Cid) (a1 : Option Blk) (nOk rdOk : Bool)
     (misses : List Cid) (b : Blk) (r : List Blk) (nf : Option Nat) (hb : (cfg.fixed && !misses.contains b.1) = false) :
-    (emitted (getBlock cfg st c a1 nOk (some 0)).2.2 = [] ∨ ∃ d, st.get c.mh = some d) ∧
+    (∀ x ∈ emitted (getBlock cfg st c a1 nOk (some 0) rdOk).2.2, st.get x.1.mh = some x.2) ∧
     fetchLoop cfg.fixed misses st nf (some 0) (b :: r) = (st, [.putFail b]) := by
   constructor
-  · rcases getBlock_fail cfg st c a1 nOk with h | ⟨blk, h, _⟩
-    · cases hg : st.get c.mh with
-      | some d => exact Or.inr ⟨d, rfl⟩
-      | none =>
-        left
-        -- without a reached Put nothing can come from the exchange: the call is identical to the failure-free
-        -- one only when no block was fetched
-        rw [h]
-        unfold getBlock
-        cases hv : validate cfg.al c.code c.len <;> simp [emitted, hg]
-        split
-        · simp [emitted]
-        · cases a1 with
-          | none => simp [emitted]
-          | some blk =>
-            have hk := h
-            unfold getBlock at hk
-            simp only [hv, hg] at hk
-            split at hk
-            · rename_i hex' ; simp_all
-            · simp only [] at hk ⊢
-              split
-              · simp [emitted]
-              · rename_i hm
-                simp [hm] at hk
-                cases nOk <;> simp at hk
-    · left; rw [h]; simp [emitted]
+  · intro x hx
+    cases rdOk with
+    | false => rw [(getBlock_rd_false cfg st c a1 nOk (some 0)).2.1] at hx; simp [emitted] at hx
+    | true =>
+      exact getBlock_fail_local cfg st c a1 nOk x hx
   · unfold fetchLoop
     simp only [hb, Bool.false_eq_true, if_false]
 
 /-- … and the store the call leaves behind is exactly the initial store plus the writes of the trace
 (nothing is ever removed by a get), so emitted blocks stay cached. -/
-theorem c05_fetched_stay_cached (cfg : Cfg) (st : Store) (ks : List Cid) (bs : List Blk) (nf pf : Option Nat) :
-    ∀ b ∈ emitted (getBlocks cfg st ks (some bs) nf pf).2, (getBlocks cfg st ks (some bs) nf pf).1.has b.1.mh = true := by
+theorem c05_fetched_stay_cached (cfg : Cfg) (st : Store) (ks : List Cid) (bs : List Blk) (nf pf : Option Nat)
+    (rd : Nat → Bool) :
+    ∀ b ∈ emitted (getBlocks cfg st ks (some bs) nf pf rd).2,
+      (getBlocks cfg st ks (some bs) nf pf rd).1.has b.1.mh = true := by
   intro b hb
-  have htr := (getBlocks_trace cfg st ks (some bs) nf pf).1
+  have htr := getBlocks_cached cfg st ks (some bs) nf pf rd
   unfold getBlocks at hb htr ⊢
   simp only [] at hb htr ⊢
   split at hb
   · rename_i h
     simp only [h, if_true] at htr ⊢
     rw [emitted_map_emit] at hb
-    exact get_some_has (mem_splitLocal_hits hb).2
+    exact get_some_has (mem_splitLocalR_hits hb).2
   · rename_i h
     simp only [h, Bool.false_eq_true, if_false] at htr ⊢
-    have hf := fetchLoop_cached cfg.fixed (splitLocal st (filterKeys cfg.al ks)).2 bs st nf pf
+    have hf := fetchLoop_cached cfg.fixed (splitLocalR st rd 0 (filterKeys cfg.al ks)).2 bs st nf pf
     simp only [emitted_append, emitted_map_emit, emitted, List.append_nil, List.mem_append] at hb
     rw [← hf.2.2]
     rcases hb with hb | hb
-    · exact replay_has_mono _ _ _ (get_some_has (mem_splitLocal_hits hb).2)
+    · exact replay_has_mono _ _ _ (get_some_has (mem_splitLocalR_hits hb).2)
     · obtain ⟨pre, post, hsplit⟩ := mem_emitted_split hb
       have := cachedOk_split pre st b post (hsplit ▸ hf.1)
       rw [hsplit, replay_append]
@@ -105,14 +94,15 @@ theorem c05_fetched_stay_cached (cfg : Cfg) (st : Store) (ks : List Cid) (bs : L
 /-- GetBlock returns a block with exactly the requested CID; GetBlocks emits only blocks whose CID was
 requested (and passes the allowlist) — for EVERY exchange, however malicious. -/
 theorem c05_only_requested (cfg : Cfg) (hfix : cfg.fixed = true) (st : Store) (c : Cid) (ks : List Cid)
-    (a1 : Option Blk) (a2 : Option (List Blk)) (nOk : Bool) (nf p1 p2 : Option Nat) :
-    (∀ b, (getBlock cfg st c a1 nOk p1).2.1 = .blk b → b.1 = c) ∧
-    (∀ b ∈ emitted (getBlock cfg st c a1 nOk p1).2.2, b.1 = c) ∧
-    (∀ b ∈ emitted (getBlocks cfg st ks a2 nf p2).2, b.1 ∈ ks ∧ valid cfg.al b.1 = true) := by
-  refine ⟨?_, fun b hb => (getBlock_requested cfg hfix st c a1 nOk p1 b hb).1, getBlocks_requested cfg hfix st ks a2 nf p2⟩
+    (a1 : Option Blk) (a2 : Option (List Blk)) (nOk : Bool) (nf p1 p2 : Option Nat) (rdOk : Bool) (rd : Nat → Bool) :
+    (∀ b, (getBlock cfg st c a1 nOk p1 rdOk).2.1 = .blk b → b.1 = c) ∧
+    (∀ b ∈ emitted (getBlock cfg st c a1 nOk p1 rdOk).2.2, b.1 = c) ∧
+    (∀ b ∈ emitted (getBlocks cfg st ks a2 nf p2 rd).2, b.1 ∈ ks ∧ valid cfg.al b.1 = true) := by
+  refine ⟨?_, fun b hb => (getBlock_requested cfg hfix st c a1 nOk p1 rdOk b hb).1,
+    getBlocks_requested cfg hfix st ks a2 nf p2 rd⟩
   intro b hb
-  have := getBlock_result_emitted cfg st c a1 nOk p1 b hb
-  exact (getBlock_requested cfg hfix st c a1 nOk p1 b this).1
+  have := getBlock_result_emitted cfg st c a1 nOk p1 rdOk b hb
+  exact (getBlock_requested cfg hfix st c a1 nOk p1 rdOk b this).1
 
 /-- The code before the fix returns whatever the exchange answers: request `a`, get `b`. -/
 theorem c05_unfixed_counterexample :
@@ -128,10 +118,13 @@ blocks the exchange answers with are well formed (`H`), then every returned bloc
 consistent. (The block service does not re-hash exchange blocks: see `c05_hash_counterexample`.) -/
 theorem c05_hash_ok_partial (H : Key → Data → Prop) (cfg : Cfg) (st : Store) (hs : storeH H st) (c : Cid)
     (ks : List Cid) (a1 : Option Blk) (a2 : Option (List Blk)) (nOk : Bool) (nf p1 p2 : Option Nat)
+    (rdOk : Bool) (rd : Nat → Bool)
     (h1 : ∀ b, a1 = some b → H b.1.mh b.2) (h2 : ∀ bs, a2 = some bs → ∀ b ∈ bs, H b.1.mh b.2) :
-    ((∀ b ∈ emitted (getBlock cfg st c a1 nOk p1).2.2, H b.1.mh b.2) ∧ storeH H (getBlock cfg st c a1 nOk p1).1) ∧
-    ((∀ b ∈ emitted (getBlocks cfg st ks a2 nf p2).2, H b.1.mh b.2) ∧ storeH H (getBlocks cfg st ks a2 nf p2).1) :=
-  ⟨getBlock_hash H cfg st c a1 nOk p1 hs h1, getBlocks_hash H cfg st ks a2 nf p2 hs h2⟩
+    ((∀ b ∈ emitted (getBlock cfg st c a1 nOk p1 rdOk).2.2, H b.1.mh b.2) ∧
+      storeH H (getBlock cfg st c a1 nOk p1 rdOk).1) ∧
+    ((∀ b ∈ emitted (getBlocks cfg st ks a2 nf p2 rd).2, H b.1.mh b.2) ∧
+      storeH H (getBlocks cfg st ks a2 nf p2 rd).1) :=
+  ⟨getBlock_hash H cfg st c a1 nOk p1 rdOk hs h1, getBlocks_hash H cfg st ks a2 nf p2 rd hs h2⟩
 
 /-- Known finding (also with the fix): an exchange that answers with the requested CID but other bytes gets
 them cached and returned. `H k d := k.dig = d` is the harness's "sha2-256 of data-d". -/
